@@ -284,7 +284,7 @@ func (s *Session) Read(b []byte) (n int, err error) {
 			// recvQueue is empty and we haven't read anything.
 			// Wait for incoming segments to fill the recvQueue.
 			if verifhook.Enabled {
-				verifhook.Event("read.wait", s.id)
+				verifhook.Event("read.wait", s.id, verifhook.B(s.isClient))
 			}
 			select {
 			case <-s.closedChan:
